@@ -139,10 +139,37 @@ def run_cases(chk, binp, cases, pf_ok, pf):
     chk.assumptions = ["strfmt types and nil elements inside []interface{} are outside the generated values"]
 
 
+def edge_cases(chk):
+    """every integer edge of a Go carrier against the bounds next to it (as in C13), through parameters, headers and items"""
+    import random
+    from . import c13
+    rng = random.Random(chk.seed + 1600)
+    groups = [g for g in c13.edge_groups() if g[0] != "multipleOf" and abs(int(g[2])) <= 2**53]
+    rng.shuffle(groups)
+    out = []
+    for kind, lit, bound, excl in groups[:(150 if chk.tier == "quick" else len(groups))]:
+        for cv in c13.carriers(lit):
+            if cv["k"].startswith("float") and rng.random() < 0.5:
+                continue
+            d = {"type": rng.choice(["number", "integer"]) if "." not in lit else "number", kind: int(bound)}
+            if excl:
+                d["exclusive" + kind[0].upper() + kind[1:]] = True
+            shape = rng.randrange(3)
+            if shape == 0:
+                out.append({"def": dict(d, name="p", **{"in": "query"}), "val": cv})
+            elif shape == 1:
+                out.append({"header": True, "name": "h", "def": d, "val": cv})
+            else:
+                out.append({"def": {"name": "p", "in": "query", "type": "array", "items": d}, "val": {"k": "slice", "e": "iface", "l": [cv]}})
+    return out
+
+
 def run(chk):
     pf_ok, pf = C.proof_obligations("C16")
     binp = C.build_harness("verif")
-    cases = Q.generate(binp, chk.seed + 16, N[chk.tier], chk.tier)
+    cases = Q.generate(binp, chk.seed + 16, N[chk.tier], chk.tier) + edge_cases(chk)
+    for i, c in enumerate(cases):
+        c["id"] = i
     run_cases(chk, binp, cases, pf_ok, pf)
 
 
